@@ -127,6 +127,9 @@ func parseRow(row string) ([]tak.Square, error) {
 					return nil, fmt.Errorf("stone type not at end of stack: %s", bit)
 				}
 				stack = stack[1:]
+				if len(stack) == 0 {
+					return nil, fmt.Errorf("stone type without a stone: %s", bit)
+				}
 				color := stack[0].Color()
 				if b == 'S' {
 					stack[0] = tak.MakePiece(color, tak.Standing)
